@@ -220,7 +220,7 @@ func (o *ovsdbClient) Connect(ctx context.Context) error {
 		// the connection since: make sure the watch exists
 	}
 	if o.options.leaderOnly {
-		if err := o.watchForLeaderChange(); err != nil {
+		if err := o.watchForLeaderChange(ctx); err != nil {
 			return err
 		}
 	}
@@ -1156,7 +1156,7 @@ func (o *ovsdbClient) Echo(ctx context.Context) error {
 
 // watchForLeaderChange will trigger a reconnect if the connected endpoint
 // ever loses leadership
-func (o *ovsdbClient) watchForLeaderChange() error {
+func (o *ovsdbClient) watchForLeaderChange(ctx context.Context) error {
 	db := o.databases[serverDB]
 	o.rpcMutex.RLock()
 	defer o.rpcMutex.RUnlock()
@@ -1182,7 +1182,7 @@ func (o *ovsdbClient) watchForLeaderChange() error {
 	// NOTE: _Server does not support monitor_cond_since
 	m.Method = ovsdb.ConditionalMonitorRPC
 	m.Tables = []TableMonitor{{Table: "Database"}}
-	return o.monitor(context.Background(), newMonitorCookie(serverDB), false, m)
+	return o.monitor(ctx, newMonitorCookie(serverDB), false, m)
 }
 
 func (o *ovsdbClient) startLeaderWatch(tc *cache.TableCache) {
